@@ -8,12 +8,21 @@ use tyme4rs::tyme::{Culture, Tyme};
 use tyme4rs::tyme::solar::*;
 use tyme4rs::tyme::lunar::*;
 use tyme4rs::tyme::jd::JulianDay;
+use tyme4rs::tyme::sixtycycle::*;
+use tyme4rs::tyme::culture::*;
+use tyme4rs::tyme::culture::star::nine::NineStar;
+use tyme4rs::tyme::culture::star::twelve::TwelveStar;
+use tyme4rs::tyme::culture::star::twenty_eight::TwentyEightStar;
+use tyme4rs::tyme::culture::fetus::FetusDay;
+use tyme4rs::tyme::enums::{YinYang, Side};
 
 pub fn dispatch(check: &str, lo: i64, hi: i64, seed: u64, thorough: bool, out: &mut Out) -> bool {
   match check {
     "c01_calendar_years" => c01_calendar_years(lo, hi, out),
     "l_new" => l_new(lo, hi, out),
     "l_td" => l_td(lo, hi, out),
+    "c19_attributes" => c19_attributes(out),
+    "c11_names" => c11_names(out),
     "c03_month_step" => c03_month_step(lo, hi, out),
     "c02_solar_side" => c02_solar_side(lo, hi, out),
     "c02_lunar_side" => c02_lunar_side(lo, hi, out),
@@ -449,4 +458,179 @@ fn c03_month_step(lo: i64, hi: i64, out: &mut Out) {
     }
     if y as i64 == lo { out.sample(format!("lunar year {}: {} months x {} step counts", y, ms.len(), steps.len())); }
   }
+}
+
+
+// ---------------------------------------------------------------------------------------------
+// C19: stem / branch / pillar / star attributes against the first-principles encoding (finite domains,
+// enumerated completely)
+// ---------------------------------------------------------------------------------------------
+macro_rules! chk { ($out:expr, $key:expr, $got:expr, $want:expr) => {{ $out.evaluations += 1; let g = $got as i64; let w = $want as i64; if g != w { $out.fail($key, format!("got {} want {}", g, w)); } }} }
+
+fn c19_attributes(out: &mut Out) {
+  use crate::spec as sp;
+  for s in 0..10i64 {
+    let h = HeavenStem::from_index(s as isize);
+    chk!(out, format!("stem_element:{}", s), h.get_element().get_index(), sp::stem_element(s));
+    chk!(out, format!("stem_polarity:{}", s), if h.get_yin_yang() == YinYang::YANG { 0 } else { 1 }, sp::polarity(s));
+    chk!(out, format!("stem_direction:{}", s), h.get_direction().get_index(), sp::element_direction(sp::stem_element(s)));
+    chk!(out, format!("stem_joy:{}", s), h.get_joy_direction().get_index(), sp::joy_direction(s));
+    chk!(out, format!("stem_yang_noble:{}", s), h.get_yang_direction().get_index(), sp::noble_direction(s, true));
+    chk!(out, format!("stem_yin_noble:{}", s), h.get_yin_direction().get_index(), sp::noble_direction(s, false));
+    chk!(out, format!("stem_wealth:{}", s), h.get_wealth_direction().get_index(), sp::wealth_direction(s));
+    chk!(out, format!("stem_mascot:{}", s), h.get_mascot_direction().get_index(), sp::mascot_direction(s));
+    chk!(out, format!("stem_combine:{}", s), h.get_combine().get_index(), sp::stem_combine_partner(s));
+    chk!(out, format!("stem_combine_involution:{}", s), h.get_combine().get_combine().get_index(), s);
+    for t in 0..10i64 {
+      let o = HeavenStem::from_index(t as isize);
+      chk!(out, format!("ten_star:{}:{}", s, t), h.get_ten_star(o.clone()).get_index(), sp::ten_star(s, t));
+      let c = h.combine(o.clone());
+      let want = if t == sp::stem_combine_partner(s) { sp::stem_combine_element(s) } else { -1 };
+      chk!(out, format!("stem_combine_element:{}:{}", s, t), c.map(|e| e.get_index() as i64).unwrap_or(-1), want);
+    }
+    for b in 0..12i64 {
+      chk!(out, format!("terrain:{}:{}", s, b), h.get_terrain(EarthBranch::from_index(b as isize)).get_index(), sp::growth_stage(s, b));
+    }
+  }
+  for b in 0..12i64 {
+    let e = EarthBranch::from_index(b as isize);
+    chk!(out, format!("branch_element:{}", b), e.get_element().get_index(), sp::branch_element(b));
+    chk!(out, format!("branch_polarity:{}", b), if e.get_yin_yang() == YinYang::YANG { 0 } else { 1 }, sp::polarity(b));
+    let (m0, m1, m2) = sp::hidden_stems(b);
+    chk!(out, format!("hide_main:{}", b), e.get_hide_heaven_stem_main().get_index(), m0);
+    chk!(out, format!("hide_middle:{}", b), e.get_hide_heaven_stem_middle().map(|x| x.get_index() as i64).unwrap_or(-1), m1);
+    chk!(out, format!("hide_residual:{}", b), e.get_hide_heaven_stem_residual().map(|x| x.get_index() as i64).unwrap_or(-1), m2);
+    let hs: Vec<i64> = e.get_hide_heaven_stems().iter().map(|x| x.get_heaven_stem().get_index() as i64).collect();
+    let want: Vec<i64> = [m0, m1, m2].iter().cloned().filter(|&x| x >= 0).collect();
+    out.evaluations += 1;
+    if hs != want { out.fail(format!("hide_list:{}", b), format!("{:?} want {:?}", hs, want)); }
+    chk!(out, format!("zodiac:{}", b), e.get_zodiac().get_index(), b);
+    chk!(out, format!("branch_direction:{}", b), e.get_direction().get_index(), sp::element_direction(sp::branch_element(b)));
+    chk!(out, format!("clash:{}", b), e.get_opposite().get_index(), sp::clash(b));
+    chk!(out, format!("clash_involution:{}", b), e.get_opposite().get_opposite().get_index(), b);
+    chk!(out, format!("ominous:{}", b), e.get_ominous().get_index(), sp::ominous_direction(b));
+    chk!(out, format!("six_combine:{}", b), e.get_combine().get_index(), sp::six_combine(b).0);
+    chk!(out, format!("six_combine_involution:{}", b), e.get_combine().get_combine().get_index(), b);
+    chk!(out, format!("harm:{}", b), e.get_harm().get_index(), sp::harm(b));
+    chk!(out, format!("harm_involution:{}", b), e.get_harm().get_harm().get_index(), b);
+    for t in 0..12i64 {
+      let c = e.combine(EarthBranch::from_index(t as isize));
+      let want = if t == sp::six_combine(b).0 { sp::six_combine(b).1 } else { -1 };
+      chk!(out, format!("six_combine_element:{}:{}", b, t), c.map(|x| x.get_index() as i64).unwrap_or(-1), want);
+    }
+  }
+  for p in 0..60i64 {
+    let c = SixtyCycle::from_index(p as isize);
+    chk!(out, format!("pillar_stem:{}", p), c.get_heaven_stem().get_index(), p % 10);
+    chk!(out, format!("pillar_branch:{}", p), c.get_earth_branch().get_index(), p % 12);
+    chk!(out, format!("pillar_crt:{}", p), sp::pillar_index(p % 10, p % 12), p);
+    chk!(out, format!("nayin:{}", p), c.get_sound().get_index(), sp::nayin(p));
+    chk!(out, format!("xun:{}", p), c.get_ten().get_index(), sp::xun(p));
+    let v = c.get_extra_earth_branches();
+    let (a, b) = sp::void_branches(p);
+    chk!(out, format!("void0:{}", p), v[0].get_index(), a);
+    chk!(out, format!("void1:{}", p), v[1].get_index(), b % 12);
+    let f = FetusDay::new(c.clone());
+    let (side, dir) = sp::fetus_day_place(p);
+    chk!(out, format!("fetus_side:{}", p), if f.get_side() == Side::IN { 0 } else { 1 }, side);
+    chk!(out, format!("fetus_direction:{}", p), f.get_direction().get_index(), dir);
+    chk!(out, format!("fetus_stem:{}", p), f.get_fetus_heaven_stem().get_index(), (p % 10) % 5);
+    chk!(out, format!("fetus_branch:{}", p), f.get_fetus_earth_branch().get_index(), (p % 12) % 6);
+    // name <-> pillar (the decomposition used by every from_name(format!(stem, branch)) site)
+    out.evaluations += 1;
+    let name = format!("{}{}", HeavenStem::from_index(p as isize).get_name(), EarthBranch::from_index(p as isize).get_name());
+    if c.get_name() != name || SixtyCycle::from_name(&name).get_index() as i64 != p { out.fail(format!("pillar_name:{}", p), name); }
+  }
+  for e in 0..5i64 {
+    let x = Element::from_index(e as isize);
+    chk!(out, format!("element_direction:{}", e), x.get_direction().get_index(), sp::element_direction(e));
+    chk!(out, format!("reinforce:{}", e), x.get_reinforce().get_index(), sp::generates(e));
+    chk!(out, format!("restrain:{}", e), x.get_restrain().get_index(), sp::overcomes(e));
+    chk!(out, format!("reinforced_inverse:{}", e), x.get_reinforced().get_reinforce().get_index(), e);
+    chk!(out, format!("restrained_inverse:{}", e), x.get_restrained().get_restrain().get_index(), e);
+  }
+  for d in 0..9i64 {
+    chk!(out, format!("direction_element:{}", d), Direction::from_index(d as isize).get_element().get_index(), sp::direction_element(d));
+    let ns = NineStar::from_index(d as isize);
+    chk!(out, format!("ninestar_element:{}", d), ns.get_element().get_index(), sp::direction_element(d));
+    chk!(out, format!("ninestar_direction:{}", d), ns.get_direction().get_index(), d);
+    chk!(out, format!("ninestar_dipper:{}", d), ns.get_dipper().get_index(), d);
+    chk!(out, format!("land_direction:{}", d), Land::from_index(d as isize).get_direction().get_index(), d);
+    out.evaluations += 1;
+    let col = ["白", "黑", "碧", "绿", "黄", "白", "赤", "白", "紫"][d as usize];
+    if ns.get_color() != col { out.fail(format!("ninestar_color:{}", d), ns.get_color()); }
+  }
+  for i in 0..28i64 {
+    let t = TwentyEightStar::from_index(i as isize);
+    chk!(out, format!("mansion_luminary:{}", i), t.get_seven_star().get_index(), sp::mansion_luminary(i));
+    chk!(out, format!("mansion_land:{}", i), t.get_land().get_index(), sp::mansion_land(i));
+    chk!(out, format!("mansion_zone:{}", i), t.get_zone().get_index(), sp::mansion_zone(i));
+    chk!(out, format!("mansion_animal:{}", i), t.get_animal().get_index(), i);
+    chk!(out, format!("mansion_luck:{}", i), t.get_luck().get_index(), sp::mansion_luck(i));
+  }
+  for z in 0..4i64 {
+    let zn = Zone::from_index(z as isize);
+    chk!(out, format!("zone_beast:{}", z), zn.get_beast().get_index(), z);
+    chk!(out, format!("zone_direction:{}", z), zn.get_direction().get_index(), [sp::E, sp::N, sp::W, sp::S][z as usize]);
+  }
+  for i in 0..12i64 {
+    chk!(out, format!("twelve_ecliptic:{}", i), TwelveStar::from_index(i as isize).get_ecliptic().get_index(), sp::twelve_star_ecliptic(i));
+  }
+  for i in 0..2i64 {
+    chk!(out, format!("ecliptic_luck:{}", i), tyme4rs::tyme::culture::star::twelve::Ecliptic::from_index(i as isize).get_luck().get_index(), i);
+  }
+  for i in 0..9i64 { chk!(out, format!("twenty_sixty:{}", i), Twenty::from_index(i as isize).get_sixty().get_index(), i / 3); }
+  for i in 0..72i64 { chk!(out, format!("phenology_three:{}", i), tyme4rs::tyme::culture::phenology::Phenology::from_index(i as isize).get_three_phenology().get_index(), i % 3); }
+  for i in 0..6i64 {
+    let r = tyme4rs::tyme::culture::ren::minor::MinorRen::from_index(i as isize);
+    chk!(out, format!("minor_ren_luck:{}", i), r.get_luck().get_index(), i % 2);
+    // 大安木 留连水 速喜火 赤口金 小吉木 空亡土
+    chk!(out, format!("minor_ren_element:{}", i), r.get_element().get_index(), [sp::WOOD, sp::WATER, sp::FIRE, sp::METAL, sp::WOOD, sp::EARTH][i as usize]);
+  }
+  // zodiac signs over all 366 month-day combinations
+  for m in 1..=12i64 {
+    for d in 1..=31i64 {
+      if !spec::valid_date(2000, m, d) { continue; }
+      chk!(out, format!("sign:{}-{}", m, d), SolarDay::from_ymd(2000, m as usize, d as usize).get_constellation().get_index(), sp::zodiac_sign(m, d));
+    }
+  }
+  out.sample("all 10 stems, 12 branches, 10x10 / 10x12 / 12x12 pairs, 60 pillars, 9 stars, 28 mansions, 366 month-days".to_string());
+}
+
+// ---------------------------------------------------------------------------------------------
+// C11: index <-> name lookups are mutually inverse for every cyclic type; unknown names are refused.
+// (domains finite, enumerated completely; the type list is maintained by hand against the generated
+//  Kani cycle harness list - a type missing here shows up as a registry mismatch)
+// ---------------------------------------------------------------------------------------------
+macro_rules! names_of { ($out:expr, $tag:expr, $T:ty, $n:expr) => {{
+  for i in 0..$n as isize {
+    $out.evaluations += 1;
+    let x = <$T>::from_index(i);
+    let name = x.get_name();
+    match guard(|| <$T>::from_name(&name).get_index()) {
+      Some(j) => if j as isize != i { $out.fail(format!("name_inverse:{}:{}", $tag, i), format!("from_name({}) -> {}", name, j)); },
+      None => $out.fail(format!("name_inverse:{}:{}", $tag, i), "panic".into()),
+    }
+  }
+  $out.evaluations += 1;
+  if guard(|| <$T>::from_name("不存在的名字").get_index()).is_some() { $out.fail(format!("unknown_name:{}", $tag), "accepted".into()); }
+}} }
+
+fn c11_names(out: &mut Out) {
+  use tyme4rs::tyme::culture::star::{nine::*, seven::*, six::*, ten::*, twelve::*, twenty_eight::*};
+  use tyme4rs::tyme::culture::{dog::Dog, nine::Nine, phenology::*, plumrain::PlumRain, ren::minor::MinorRen, peng_zu::*, fetus::*};
+  names_of!(out, "HeavenStem", HeavenStem, 10); names_of!(out, "EarthBranch", EarthBranch, 12); names_of!(out, "SixtyCycle", SixtyCycle, 60);
+  names_of!(out, "Animal", Animal, 28); names_of!(out, "Beast", Beast, 4); names_of!(out, "Constellation", Constellation, 12);
+  names_of!(out, "Direction", Direction, 9); names_of!(out, "Duty", Duty, 12); names_of!(out, "Element", Element, 5);
+  names_of!(out, "God", God, 151); names_of!(out, "Land", Land, 9); names_of!(out, "Luck", Luck, 2); names_of!(out, "Phase", Phase, 30);
+  names_of!(out, "Sixty", Sixty, 3); names_of!(out, "Sound", Sound, 30); names_of!(out, "Taboo", Taboo, 141); names_of!(out, "Ten", Ten, 6);
+  names_of!(out, "Terrain", Terrain, 12); names_of!(out, "Twenty", Twenty, 9); names_of!(out, "Week", Week, 7); names_of!(out, "Zodiac", Zodiac, 12);
+  names_of!(out, "Zone", Zone, 4); names_of!(out, "Dog", Dog, 3); names_of!(out, "Nine", Nine, 9); names_of!(out, "Phenology", Phenology, 72);
+  names_of!(out, "ThreePhenology", ThreePhenology, 3); names_of!(out, "PlumRain", PlumRain, 2); names_of!(out, "MinorRen", MinorRen, 6);
+  names_of!(out, "PengZuHeavenStem", PengZuHeavenStem, 10); names_of!(out, "PengZuEarthBranch", PengZuEarthBranch, 12);
+
+  names_of!(out, "Dipper", Dipper, 9); names_of!(out, "NineStar", NineStar, 9); names_of!(out, "SevenStar", SevenStar, 7); names_of!(out, "SixStar", SixStar, 6);
+  names_of!(out, "TenStar", TenStar, 10); names_of!(out, "Ecliptic", Ecliptic, 2); names_of!(out, "TwelveStar", TwelveStar, 12); names_of!(out, "TwentyEightStar", TwentyEightStar, 28);
+  names_of!(out, "LunarSeason", LunarSeason, 12);
+  out.sample("41 cyclic types: from_name(from_index(i).get_name()).index == i for every i; unknown name refused".to_string());
 }
